@@ -131,6 +131,8 @@ pub fn extras() -> Vec<&'static str> {
         // auxiliary energy as the only electricity component; a step with very little on-site production next to a large one
         "1,CONSUMO,CAL,GASNATURAL,190,150,100\n1,AUX,20,15,10",
         "CONSUMO,ILU,ELECTRICIDAD,5000,5000,5000\nPRODUCCION,EL_INSITU,20000,15,0",
+        // a gas machine that heats and cools (cooling output declared negative) with auxiliaries, little lighting and PV
+        "1,CONSUMO,CAL,GASNATURAL,100,30,0\n1,CONSUMO,REF,GASNATURAL,0,30,300\n1,SALIDA,CAL,90,30,0\n1,SALIDA,REF,0,-30,-270\n1,AUX,4,2,6\n2,CONSUMO,ILU,ELECTRICIDAD,5,5,2\n0,PRODUCCION,EL_INSITU,10,10,10",
         // a heat pump for two services that is idle in one step but keeps consuming auxiliary energy, a chiller, PV
         "1,CONSUMO,CAL,ELECTRICIDAD,40,30,0,20\n1,CONSUMO,ACS,ELECTRICIDAD,10,10,0,10\n1,SALIDA,CAL,120,90,0,60\n1,SALIDA,ACS,25,25,0,25\n1,AUX,3,3,3,3\n2,CONSUMO,REF,ELECTRICIDAD,0,5,30,0\n3,PRODUCCION,EL_INSITU,5,20,40,10\n4,CONSUMO,ILU,ELECTRICIDAD,6,6,6,6",
     ]
